@@ -11,6 +11,7 @@ RULE = ("seeded programs over the random-consuming APIs (rand/randn/normal/randi
         "dtype, shape and bytes of every produced array must coincide; an RNG tap wraps numpy.random.default_rng/RandomState/SeedSequence, "
         "random.Random/SystemRandom and os.urandom and reports any generator constructed from library code without a seed. distinct key = "
         "(program kind, seed, parameters); non-trivial = the program draws random numbers or has fan-in >= 40")
+RULE += (" Round 6: Dropout in training mode under no_grad (Monte-Carlo dropout), one graph differentiated four times with the same upstream-gradient tensor (bit-identical gradients per call).")
 RULE += (" Added after the seeded rounds: programs reseed-existing-model, retrain-existing-model (new optimizers over the same parameters), split-arrays (the caller's arrays reused), train-conv, apply-init, onehot-strings, degenerate layer widths after polluted freed memory.")
 ASSUMPTIONS = ["BLAS pinned to one thread in every child (thread-count dependent reduction order is outside the property)",
                "bit-identity is required across processes on this machine, not across machines"]
@@ -23,7 +24,7 @@ def gen_cases(tier, seed):
     rng = gen.rng_for(seed, "c19", tier)
     cases = []
     seeds = [0, 1, 2 ** 31 - 1, int(seed) + 12345]
-    kinds = ["random-tensors", "initialisers", "layers", "dropout", "split", "split-arrays", "reseed-existing-model", "retrain-existing-model", "train-conv", "apply-init", "onehot-strings", "late-import-utils", "singular-points"]
+    kinds = ["random-tensors", "initialisers", "layers", "dropout", "split", "split-arrays", "reseed-existing-model", "retrain-existing-model", "train-conv", "apply-init", "onehot-strings", "late-import-utils", "singular-points", "dropout-untracked", "repeat-backward"]
     reps = 2 if tier == "quick" else 8
     for rep in range(reps):
         for k in kinds:
@@ -73,6 +74,10 @@ def run_case(ns, ctx, case):
                 viol.append(V(f"repro:{case['kind']}:in-process-repeat-differs", "repeating the program in one process gave different digests"
                               + (" after manual_seed" if case.get("manual_seed") is not None else ""), hashseed=hs, digests=[r["d1"], r["d2"], r["d3"]]))
                 break
+        for hs, junk, r in results[:1]:
+            counters["in_run_repetition_checks"] = counters.get("in_run_repetition_checks", 0) + (1 if case["kind"] == "repeat-backward" else 0)
+            for msg in r.get("internal", []):
+                viol.append(V(f"repro:{case['kind']}:repetition-dependent", msg, hashseed=hs))
         ds = {r["d1"] for _, _, r in results}
         counters["cross_process_comparisons"] = len(results) - 1
         if len(ds) != 1 and not viol:
